@@ -2,6 +2,7 @@
 From Coq Require Import List NArith Bool Lia ZifyN ZifyNat ZifyBool.
 From Frugal Require Import Bytes Wire Values Desc Spec Routines Encode Checks.
 From Frugal.gen Require Import Params Tables.
+From Frugal.proofs Require Import ParamsSplit.
 Import ListNotations.
 Open Scope N_scope.
 
@@ -68,15 +69,15 @@ Proof.
 Qed.
 
 (* ------------------------------------------------------------------ *)
-(* facts extracted from params_ok *)
+(* facts extracted from enc_params_ok *)
 
-Lemma params_codes : params_ok = true -> codes_ok = true.
-Proof. unfold params_ok. intros H. repeat (apply andb_prop in H; destruct H as [H ?]). exact H. Qed.
+Lemma params_codes : enc_params_ok = true -> codes_ok = true.
+Proof. exact enc_codes. Qed.
 
-Lemma params_fixed : params_ok = true -> fixed_ok = true.
-Proof. unfold params_ok. intros H. repeat (apply andb_prop in H; destruct H as [H ?]). assumption. Qed.
+Lemma params_fixed : enc_params_ok = true -> fixed_ok = true.
+Proof. exact enc_fixed. Qed.
 
-Lemma hdr_lens : params_ok = true ->
+Lemma hdr_lens : enc_params_ok = true ->
   fieldHeaderLen = 3 /\ mapHeaderLen = 6 /\ listHeaderLen = 5 /\ strHeaderLen = 4.
 Proof.
   intros H. apply params_codes in H. unfold codes_ok in H.
@@ -90,7 +91,7 @@ Qed.
 Lemma fs_kind : forall t t', kind t = kind t' -> fixed_size t = fixed_size t'.
 Proof. intros t t' H. unfold fixed_size. rewrite H. reflexivity. Qed.
 
-Lemma fs_scalar : params_ok = true -> forall t, is_scalar_ty t = true -> fixed_size t = wire_width t.
+Lemma fs_scalar : enc_params_ok = true -> forall t, is_scalar_ty t = true -> fixed_size t = wire_width t.
 Proof.
   intros H t Ht. apply params_fixed in H. unfold fixed_ok in H.
   apply andb_prop in H. destruct H as [H _].
@@ -98,7 +99,7 @@ Proof.
   unfold scalar_tys. destruct t; try discriminate Ht; simpl; tauto.
 Qed.
 
-Lemma fs_other : params_ok = true -> forall t, In t other_tys -> fixed_size t = 0.
+Lemma fs_other : enc_params_ok = true -> forall t, In t other_tys -> fixed_size t = 0.
 Proof.
   intros H t Ht. apply params_fixed in H. unfold fixed_ok in H.
   apply andb_prop in H. destruct H as [_ H].
@@ -112,7 +113,7 @@ Definition is_var_ty (t : ty) : bool :=
   | _ => false
   end.
 
-Lemma fs_var : params_ok = true -> forall t, is_var_ty t = true -> fixed_size t = 0.
+Lemma fs_var : enc_params_ok = true -> forall t, is_var_ty t = true -> fixed_size t = 0.
 Proof.
   intros H t Ht. destruct t as [| | | | | | | | |b e|k v|sid|t']; try discriminate Ht.
   - apply (fs_other H). unfold other_tys. simpl. tauto.
@@ -441,7 +442,7 @@ Qed.
 
 Section Main.
 Variable env : senv.
-Hypothesis HP : params_ok = true.
+Hypothesis HP : enc_params_ok = true.
 Hypothesis HT : tables_ok = true.
 
 Lemma direct_len : forall t w x,
@@ -749,12 +750,12 @@ Definition slot_ok (env : senv) (t : ty) (v : val) : bool :=
   ty_ok env t && (negb (is_ptr t) || is_struct_ptr t || negb (is_nil v)).
 
 (* the pointer condition of slot_ok is not needed *)
-Theorem size_exact_ty : forall env, params_ok = true -> tables_ok = true -> env_ok env = true ->
+Theorem size_exact_ty : forall env, enc_params_ok = true -> tables_ok = true -> env_ok env = true ->
   forall v t, has_type env t v = true -> ty_ok env t = true ->
   enc_size env t v = len (append_any env t v).
 Proof. intros env HP HT HE v t Hv Hok. exact (main env HP HT HE v t Hv Hok). Qed.
 
-Theorem size_exact_gen : forall env, params_ok = true -> tables_ok = true -> env_ok env = true ->
+Theorem size_exact_gen : forall env, enc_params_ok = true -> tables_ok = true -> env_ok env = true ->
   forall v t, has_type env t v = true -> slot_ok env t v = true ->
   enc_size env t v = len (append_any env t v).
 Proof.
@@ -763,7 +764,7 @@ Proof.
   exact (main env HP HT HE v t Hv Hok).
 Qed.
 
-Theorem size_exact : forall env sid v, params_ok = true -> tables_ok = true -> env_ok env = true ->
+Theorem size_exact : forall env sid v, enc_params_ok = true -> tables_ok = true -> env_ok env = true ->
   has_type env (TStruct sid) v = true ->
   encoded_size env sid v = len (append_struct env sid v).
 Proof.
